@@ -4,6 +4,8 @@ package c01
 import (
 	"bytes"
 	"crypto"
+	_ "crypto/sha1"
+	_ "crypto/sha512"
 	"encoding/hex"
 	"fmt"
 	"testing"
@@ -215,6 +217,22 @@ func checkCase(c Case) error {
 	}
 	if !bytes.Equal(got, want.Digest) {
 		return fmt.Errorf("digest mismatch: library %x, specification %x (PE32=%v, %d sections, SizeOfHeaders %d, file %d bytes, table %d)", got, want.Digest, l.PE32, l.NumSections, l.SizeOfHeaders, len(img), l.CertSize)
+	}
+	// the digest is a function of the image and the requested algorithm only: other algorithms, in any order, on the same object
+	if p, err := authenticode.Parse(bytes.NewReader(img)); err == nil {
+		algs := []crypto.Hash{crypto.SHA256, crypto.SHA1, crypto.SHA384, crypto.SHA512, crypto.SHA256}
+		start := int(want.Digest[0]) % len(algs)
+		for k := 0; k < len(algs); k++ {
+			a := algs[(start+k)%len(algs)]
+			wr, err := l.HashWith(img, a.New())
+			if err != nil {
+				return fmt.Errorf("bad case: reference hash: %v", err)
+			}
+			hx.Eval()
+			if got := p.Hash(a); !bytes.Equal(got, wr.Digest) {
+				return fmt.Errorf("Hash(%v) as call %d on one parsed object returns %x, specification digest %x", a, k+1, got, wr.Digest)
+			}
+		}
 	}
 	// reference sanity on gap-free images: covered == all bytes - {checksum, directory entry, table}
 	if l.GapFree() {
